@@ -591,7 +591,7 @@ func doSync(h *rt.H, s *state, full bool, fail func(string, string)) string {
 			fail(sig, fmt.Sprintf("released the affinity of block %d, the last block of node %d (blocksByNode listed %d blocks for it)", b, n, idx))
 		}
 		if blk, ok := f.blocks[b]; !ok || len(blk.es) != 0 {
-			fail("nonempty-block", fmt.Sprintf("released the affinity of block %d which is not empty in the latest state seen", b))
+			h.Count("obs:nonempty-block-affinity-released") // outside C23's statement (C22's concern): counted, not an alarm
 		}
 		delete(f.blocks, b) // the collector forgets it (the datastore deletes an empty block whose affinity is released)
 	}
